@@ -89,6 +89,7 @@ def bounded(tier, seed, procs):
     kinds = {
         "var": lambda: x, "sum": lambda: p.Sum((x, y)), "prod": lambda: p.Product((x, y)), "quot": lambda: p.Quotient(x, y), "pow": lambda: p.Power(x, 2),
         "sum1": lambda: p.Sum((y,)), "c0": lambda: 0, "c1": lambda: 1, "cm1": lambda: -1, "c2": lambda: 2, "f0": lambda: 0.0, "f1": lambda: 1.0, "t": lambda: True,
+        "fh": lambda: 0.5, "f15": lambda: 1.5, "pow4": lambda: p.Power(x, 4),
     }
     envs = []
     for vx, vy in itertools.product([-3, -1, 0, 1, 2, Fraction(5, 2), Fraction(-1, 2)], [-2, 1, 3, Fraction(3, 2)]):
@@ -99,10 +100,10 @@ def bounded(tier, seed, procs):
     def plain(kind, env):
         vx, vy = env["x"], env["y"]
         return {"var": vx, "sum": vx + vy, "prod": vx * vy, "quot": None if vy == 0 else vx / vy, "pow": vx ** 2, "sum1": 0 + vy, "c0": 0, "c1": 1, "cm1": -1, "c2": 2,
-                "f0": 0.0, "f1": 1.0, "t": True}[kind]
+                "f0": 0.0, "f1": 1.0, "t": True, "fh": 0.5, "f15": 1.5, "pow4": vx ** 4}[kind]
     for opn, op in BIN.items():
         for lk, rk in itertools.product(kinds, repeat=2):
-            if not (lk in ("var", "sum", "prod", "quot", "pow", "sum1") or rk in ("var", "sum", "prod", "quot", "pow", "sum1")):
+            if not (lk in ("var", "sum", "prod", "quot", "pow", "sum1", "pow4") or rk in ("var", "sum", "prod", "quot", "pow", "sum1", "pow4")):
                 continue
             built = outcome.run(lambda: op(kinds[lk](), kinds[rk]()))
             for env in envs:
